@@ -56,7 +56,7 @@ theorem parseDeclarations_class_head (env : Env) (F D : Nat) (ck : CTok) (doxyge
   all_goals
     simp only [hv1, classHdr, defaultAccess] at hpush ⊢
     simp only [interp, ↓reduceIte, (by decide : ("struct" = "class") = False), (by decide : ("union" = "class") = False)] at hpush
-    simp only [loopN, strTruthy, PQName.classkey, bind, interp_bind, hi2, Option.isSome_none, ↓reduceIte, Bool.false_eq_true, Option.getD_some,
+    simp only [loopN, classSpecBody, strTruthy, PQName.classkey, bind, interp_bind, hi2, Option.isSome_none, ↓reduceIte, Bool.false_eq_true, Option.getD_some,
       P.tokenIfInSet, hi3, validate_empty, Bool.not_false, hc3,
       (by decide : "class".isEmpty = false), (by decide : "struct".isEmpty = false), (by decide : "union".isEmpty = false),
       (by decide : ("{" = "final") = False), (by decide : ("{" = "explicit") = False), (by decide : ("{" = ":") = False),
